@@ -7,6 +7,7 @@ From SU Require Import F32 F32Lemmas.
 From SU.Model Require Import Ribbon.
 From SU.Spec Require Import RibbonSpec.
 From SU.Proofs Require Import RibbonProofs RibbonValueProofs.
+From SU.Proofs Require Import RibbonExtraProofs.
 Open Scope Z_scope.
 
 (** the ring buffer yields the last [cap] written values, oldest first *)
@@ -70,6 +71,132 @@ Theorem C16_monotone : forall e (W1 W2 : list f32) (x y : f32),
   (corr_R e (mean_R (W1 ++ x :: W2)) <= corr_R e (mean_R (W1 ++ y :: W2)))%R.
 Proof. exact corrected_mean_monotone. Qed.
 
+(** the configuration hypothesis of the theorems above holds for the property's whole quantifier: helper-sized buffer for any rate in [100, 192000], resistors with pull-up >= divider (softpot >= 1 ohm, dropper <= 10^7 softpot) *)
+Open Scope R_scope.
+Theorem C16_config_ok_of_quantifier : forall (fs : Z) (sp dr pu : f32),
+  (100 <= fs <= 192000)%Z ->
+  fin sp -> fin dr -> fin pu ->
+  1 <= R32 sp -> 0 <= R32 dr <= 10000000 * R32 sp ->
+  R32 sp + R32 dr <= R32 pu ->
+  config_ok (ribbon_new (Z.to_nat (sample_rate_to_capacity fs)) (of_Z fs) sp dr pu).
+Proof. exact config_ok_of_quantifier. Qed.
+Close Scope R_scope.
+
+(** non-vacuity: 10 kHz, 10k / 1k / 100k *)
+Open Scope R_scope.
+Theorem C16_config_ok_example :
+  config_ok (ribbon_new (Z.to_nat (sample_rate_to_capacity 10000)) (of_Z 10000)
+               (of_Z 10000) (of_Z 1000) (of_Z 100000)).
+Proof. exact config_ok_example. Qed.
+Close Scope R_scope.
+
+(** the ratio bound is needed: dropper = 2^24 softpot makes the boundary 0 *)
+Open Scope R_scope.
+Theorem C16_config_ok_needs_ratio : forall cap fs,
+  R32 (of_Z 1) + R32 (of_Z 16777216) <= R32 (of_Z 33554432) /\
+  ~ config_ok (ribbon_new cap fs (of_Z 1) (of_Z 16777216) (of_Z 33554432)).
+Proof. exact config_ok_needs_ratio. Qed.
+Close Scope R_scope.
+
+(** range, stated over the property's quantifier and arbitrary histories *)
+Open Scope R_scope.
+Theorem C16_range_quantified : forall (fs : Z) (sp dr pu : f32) (h : list rop),
+  (100 <= fs <= 192000)%Z ->
+  fin sp -> fin dr -> fin pu ->
+  1 <= R32 sp -> 0 <= R32 dr <= 10000000 * R32 sp -> R32 sp + R32 dr <= R32 pu ->
+  Forall sample_ok (samples_of h) ->
+  let r0 := ribbon_new (Z.to_nat (sample_rate_to_capacity fs)) (of_Z fs) sp dr pu in
+  let r := rrun r0 h in
+  fin (ribbon_value r) /\ 0 <= R32 (ribbon_value r) <= 1.
+Proof. exact C16_range_quantified. Qed.
+Close Scope R_scope.
+
+(** corrected mean, stated over the property's quantifier and arbitrary histories *)
+Open Scope R_scope.
+Theorem C16_value_quantified : forall (fs : Z) (sp dr pu : f32) (h : list rop),
+  (100 <= fs <= 192000)%Z ->
+  fin sp -> fin dr -> fin pu ->
+  1 <= R32 sp -> 0 <= R32 dr <= 10000000 * R32 sp -> R32 sp + R32 dr <= R32 pu ->
+  Forall sample_ok (samples_of h) ->
+  let r0 := ribbon_new (Z.to_nat (sample_rate_to_capacity fs)) (of_Z fs) sp dr pu in
+  rb_pressing (rrun r0 h) = true ->
+  Rabs (R32 (rb_val (rrun r0 h))
+        - corr_R (R32 (rb_err r0)) (mean_R (contributing r0 (samples_of h)))) <= tau r0.
+Proof. exact C16_value_quantified. Qed.
+Close Scope R_scope.
+
+(** the value is a function of the contributing samples only *)
+Open Scope R_scope.
+Theorem C16_independent : forall cap fs sp dr pu samples1 samples2,
+  (0 < cap)%nat ->
+  let r0 := ribbon_new cap fs sp dr pu in
+  rb_pressing (polls r0 samples1) = true ->
+  rb_pressing (polls r0 samples2) = true ->
+  firstn (Z.to_nat (Z.of_nat cap - rb_discard r0)) (window r0 samples1)
+  = firstn (Z.to_nat (Z.of_nat cap - rb_discard r0)) (window r0 samples2) ->
+  rb_val (polls r0 samples1) = rb_val (polls r0 samples2) /\
+  ribbon_value (polls r0 samples1) = ribbon_value (polls r0 samples2).
+Proof. exact C16_independent. Qed.
+Close Scope R_scope.
+
+(** no sample of an earlier press matters *)
+Open Scope R_scope.
+Theorem C16_independent_of_earlier_press : forall cap fs sp dr pu pre1 x1 pre2 x2 after,
+  (0 < cap)%nat ->
+  let r0 := ribbon_new cap fs sp dr pu in
+  in_range r0 x1 = false -> in_range r0 x2 = false ->
+  rb_pressing (polls r0 (pre1 ++ x1 :: after)) = true ->
+  rb_pressing (polls r0 (pre2 ++ x2 :: after)) = true /\
+  rb_val (polls r0 (pre1 ++ x1 :: after)) = rb_val (polls r0 (pre2 ++ x2 :: after)) /\
+  ribbon_value (polls r0 (pre1 ++ x1 :: after)) = ribbon_value (polls r0 (pre2 ++ x2 :: after)).
+Proof. exact C16_independent_of_earlier_press. Qed.
+Close Scope R_scope.
+
+(** none of the newest samples inside the finger-lift allowance matters *)
+Open Scope R_scope.
+Theorem C16_independent_of_newest : forall cap fs sp dr pu older new1 new2,
+  (0 < cap)%nat ->
+  let r0 := ribbon_new cap fs sp dr pu in
+  length new1 = length new2 -> (Z.of_nat (length new1) <= rb_discard r0)%Z ->
+  Forall (fun y => in_range r0 y = true) new1 ->
+  Forall (fun y => in_range r0 y = true) new2 ->
+  rb_pressing (polls r0 (older ++ new1)) = true ->
+  rb_pressing (polls r0 (older ++ new2)) = true /\
+  rb_val (polls r0 (older ++ new1)) = rb_val (polls r0 (older ++ new2)) /\
+  ribbon_value (polls r0 (older ++ new1)) = ribbon_value (polls r0 (older ++ new2)).
+Proof. exact C16_independent_of_newest. Qed.
+Close Scope R_scope.
+
+(** between, for the f32 value() itself (after the rescale by 1/boundary, capped at 1) *)
+Open Scope R_scope.
+Theorem C16_between_f32 : forall cap fs sp dr pu samples lo hi,
+  let r0 := ribbon_new cap fs sp dr pu in
+  config_ok r0 -> Forall sample_ok samples ->
+  rb_pressing (polls r0 samples) = true ->
+  (forall x, In x (contributing r0 samples) -> (0 <= lo <= R32 x) /\ (R32 x <= hi <= 1)) ->
+  let e := R32 (rb_err r0) in
+  let b := R32 (rb_boundary r0) in
+  let v := R32 (ribbon_value (polls r0 samples)) in
+  full_scale b (corr_R e lo) - 2 * tau r0 / b <= v <= full_scale b (corr_R e hi) + 2 * tau r0 / b /\
+  corr_R e lo - 2 * tau r0 <= v.
+Proof. exact C16_between_f32. Qed.
+Close Scope R_scope.
+
+(** monotone, for the f32 value() itself: raising a contributing sample lowers value() by at most 2 tau / boundary + tau / 4 *)
+Open Scope R_scope.
+Theorem C16_monotone_f32 : forall cap fs sp dr pu samples1 samples2 W1 W2 x y,
+  let r0 := ribbon_new cap fs sp dr pu in
+  config_ok r0 -> Forall sample_ok samples1 -> Forall sample_ok samples2 ->
+  rb_pressing (polls r0 samples1) = true -> rb_pressing (polls r0 samples2) = true ->
+  contributing r0 samples1 = W1 ++ x :: W2 ->
+  contributing r0 samples2 = W1 ++ y :: W2 ->
+  R32 x <= R32 y ->
+  let b := R32 (rb_boundary r0) in
+  R32 (ribbon_value (polls r0 samples1)) - (2 * tau r0 / b + tau r0 / 4)
+  <= R32 (ribbon_value (polls r0 samples2)).
+Proof. exact C16_monotone_f32. Qed.
+Close Scope R_scope.
+
 Print Assumptions C16_histbuf.
 Print Assumptions C16_value_window.
 Print Assumptions C16_retained.
@@ -77,3 +204,13 @@ Print Assumptions C16_value_range.
 Print Assumptions C16_value_is_corrected_mean.
 Print Assumptions C16_between.
 Print Assumptions C16_monotone.
+Print Assumptions C16_config_ok_of_quantifier.
+Print Assumptions C16_config_ok_example.
+Print Assumptions C16_config_ok_needs_ratio.
+Print Assumptions C16_range_quantified.
+Print Assumptions C16_value_quantified.
+Print Assumptions C16_independent.
+Print Assumptions C16_independent_of_earlier_press.
+Print Assumptions C16_independent_of_newest.
+Print Assumptions C16_between_f32.
+Print Assumptions C16_monotone_f32.
